@@ -27,7 +27,7 @@ def refParams : Params :=
     authIota := [0, 1, 2, 3, 4, 5],
     requires := [2, 4, 5],
     serverPrefFirst := true, alpnServerFirst := true, clientEcdheGuard := true,
-    encCertNeedsSig := true, resumeHonoursPolicy := true, cloneMissing := [] }
+    encCertNeedsSig := true, resumeHonoursPolicy := true, resumeSuiteGuards := true, cloneMissing := [] }
 
 /-! ### small list facts -/
 
@@ -506,7 +506,8 @@ theorem negotiateNext_ref (c : ClientCfg) (s : ServerCfg) (h : compatible c s = 
       rw [hen] at this
       simp only [Bool.and_eq_true] at this
       exact this.1
-    simp only [show refParams.resumeHonoursPolicy = true from rfl, Bool.true_and, hr1, hr2, Bool.not_false,
+    simp only [show refParams.resumeHonoursPolicy = true from rfl, show refParams.resumeSuiteGuards = true from rfl,
+      if_true, Bool.true_and, hr1, hr2, Bool.not_false,
       hoff.1, h2, docVersion, List.find?]
     rcases mem_docOrder hmem with e | e | e | e <;> subst e <;>
       simp [flagsOf, refParams, List.find?, cipherSuiteOk]
